@@ -72,7 +72,7 @@ def run(tier: str, seed: int, t0: float) -> int:
     rng = random.Random(seed)
     EM, LINK = universe.EM, universe.LINK
     # ---- M under several exclusion configurations
-    fam = c14.family(rng, 6 if not thorough else 40)
+    fam = c14.family(rng, 12 if not thorough else 40)      # the twelve fixed configurations (+ random ones when thorough)
     U = [{"t": "m1", "a": "{}"}, {"t": "m2", "a": "{}"}, {"t": "m3", "a": "{\"id\":1}"}, {"t": "m3", "a": "{\"id\":2}"}]
     plans = []
     for spec, excl, order in fam:
@@ -101,7 +101,7 @@ def run(tier: str, seed: int, t0: float) -> int:
     stats.bounds["docs_exhaustive"] = len(sel)
     jobs.append((b, "G+T markops[s1t]"))
     # ---- T: exclusion configurations on real schemas
-    for spec, excl, order in fam[:4 if not thorough else 20]:
+    for spec, excl, order in fam[:12 if not thorough else 20]:
         from prosemirror.model import Schema
         sch3 = Schema(spec)
         js3 = schemas.export(spec, "markcfg")
